@@ -24,6 +24,8 @@ SPEC = os.path.join(ROOT, 'spec')
 HARNESS = os.path.join(ROOT, 'harness')
 JARS = '/opt/veriftools/tla/tla2tools.jar:/opt/veriftools/tla/CommunityModules-deps.jar'
 NCPU = os.cpu_count() or 4
+# cap on parallel TLC/JVM processes of one check (lower it while several checks run side by side)
+JOBS = int(os.environ.get('VERIF_JOBS', '0')) or min(16, NCPU)
 
 GOENV = dict(GOFLAGS='-mod=mod', GOPROXY='off', GOSUMDB='off', GOTOOLCHAIN='local')
 
@@ -123,14 +125,14 @@ def case_key(case):
 
 def load_known(pid):
     out = {}
-    p = os.path.join(ROOT, 'known_findings.txt')
-    if not os.path.exists(p):
-        return out
-    for line in open(p):
-        line = line.strip()
-        m = re.match(r'known: property=(\S+) key=(\S+) (.*)$', line)
-        if m and m.group(1) == pid:
-            out[m.group(2)] = m.group(3)
+    for p in (os.path.join(ROOT, 'known_findings.txt'), os.path.join(ROOT, 'known', pid + '.txt')):
+        if not os.path.exists(p):
+            continue
+        for line in open(p):
+            line = line.strip()
+            m = re.match(r'known: property=(\S+) key=(\S+) (.*)$', line)
+            if m and m.group(1) == pid:
+                out[m.group(2)] = m.group(3)
     return out
 
 
@@ -258,14 +260,15 @@ def tlc(ctx, module, cfg, workers=1, heap='3g', timeout=1800, env=None, extra=()
 
 def tlc_mc(ctx, module, cfg, workers=None, **kw):
     """Exhaustive model checking of a design spec: must complete with no error."""
-    r = tlc(ctx, module, cfg, workers=workers or min(8, NCPU), **kw)
+    r = tlc(ctx, module, cfg, workers=min(workers or 8, JOBS), **kw)
     if r['invariant_violations'] or r['errors'] or not r['completed']:
         raise Infra('design-level model checking of %s/%s did not pass:\n%s' % (module, cfg, r['out'][-3000:]))
     ctx.add_mc(r)
     return r
 
 
-def tlc_trace(ctx, module, cfg, lines, shards=None, timeout=1800, heap='3g', extra_env=None, deque=False):
+def tlc_trace(ctx, module, cfg, lines, shards=None, timeout=1800, heap='2g', extra_env=None, deque=False,
+              linear=True, min_per_shard=200):
     """Validate recorded lines (list of JSON strings or dicts) against a trace spec.
 
     Returns (accepted_count, rejects) where rejects = list of (global_index, why).
@@ -274,7 +277,7 @@ def tlc_trace(ctx, module, cfg, lines, shards=None, timeout=1800, heap='3g', ext
     n = len(lines)
     if n == 0:
         return 0, []
-    shards = max(1, min(shards or NCPU, n // 200 + 1))
+    shards = max(1, min(shards or JOBS, JOBS, n // min_per_shard + 1))
     files, index = [], []
     for s in range(shards):
         idx = list(range(s, n, shards))
@@ -301,7 +304,7 @@ def tlc_trace(ctx, module, cfg, lines, shards=None, timeout=1800, heap='3g', ext
         bad = [e for e in r['errors'] if 'REJECT' not in e]
         if r['invariant_violations'] or bad or not r['completed']:
             raise Infra('trace validation run failed (%s/%s shard %d):\n%s' % (module, cfg, s, r['out'][-3000:]))
-        if r['distinct'] != len(index[s]) + 1 and not r.get('silent_ok'):
+        if linear and r['distinct'] != len(index[s]) + 1:
             # linear traces: one state per line + initial state
             if os.environ.get('VERIF_DEBUG'):
                 log(r['out'][-2000:])
@@ -336,3 +339,22 @@ def sample(lst, k, rnd):
     if len(lst) <= k:
         return list(lst)
     return rnd.sample(lst, k)
+
+
+def test_inputs(ctx, subdir):
+    """Rows of the repository's own table-driven tests in /repo/<subdir>/*_test.go:
+    list of dict(file=, func=, strings=[...]) (first string is usually the input)."""
+    exe = build_harness(ctx, 'extract', tags='verif')
+    r = run([exe, os.path.join(REPO, subdir)], timeout=120)
+    return [json.loads(l) for l in r.stdout.splitlines() if l.strip()]
+
+
+def write_ndjson(path, objs):
+    with open(path, 'w') as f:
+        for o in objs:
+            f.write(o if isinstance(o, str) else json.dumps(o, separators=(',', ':')))
+            f.write('\n')
+
+
+def read_ndjson(path):
+    return [json.loads(l) for l in open(path) if l.strip()]
